@@ -17,7 +17,7 @@ from vzstatic import cfg as cfgmod
 from vzstatic import flow
 from vzstatic.index import FuncInfo, dotted
 from vzstatic.selftest import Variant
-from vzstatic.source import ancestors, AnalysisError, loc, unparse
+from vzstatic.source import ancestors, AnalysisError, loc, stable_text, unparse
 from vzstatic.svc import Svc, where
 
 MANIFEST = {
@@ -441,8 +441,8 @@ def _short(n: cfgmod.Node) -> str:
     e = a.exc.func if isinstance(a.exc, ast.Call) else a.exc
     return 'raise ' + (dotted(e) or '?') if e is not None else 'raise'
   if isinstance(a, ast.Return):
-    return 'return ' + (unparse(a.value, limit=0) if a.value is not None else '')
-  calls = [dotted(c.func) or '?' for c in flow.node_calls(n)]
+    return 'return ' + (stable_text(a.value) if a.value is not None else '')
+  calls = [stable_text(c.func) if dotted(c.func) else '?' for c in flow.node_calls(n)]
   return 'call ' + ','.join(calls[:2]) if calls else type(a).__name__
 
 
@@ -475,11 +475,30 @@ def r3_client(ctx) -> None:
             'the response is decoded on a path that did not check operation.error',
             construct=decode[0].ast, func=fi.qualname)
   # (b) poll loop exits only when done
-  loops = [n for n in g.nodes if n.kind == 'test' and isinstance(n.ast, ast.UnaryOp)
-           and isinstance(n.ast.op, ast.Not) and (dotted(n.ast.operand) or '').endswith('.done')]
-  ctx.check(bool(loops), 'R3', 'get_suggestions: poll loop', fi.node,
-            'polls `while not operation.done` (unbounded: termination rests on R1)',
-            'poll loop on operation.done not found', construct='poll', func=fi.qualname)
+  # every path to the decoding leaves a test of `<operation>.done` on its "done" side (while-not-done,
+  # `if op.done: break` inside an unbounded loop, ...)
+  done_edges = {}
+  for n in g.nodes:
+    if n.kind != 'test':
+      continue
+    t, neg = n.ast, False
+    while isinstance(t, ast.UnaryOp) and isinstance(t.op, ast.Not):
+      t, neg = t.operand, not neg
+    if (dotted(t) or '').endswith('.done'):
+      done_edges[n.id] = 'F' if neg else 'T'
+  seen, todo = {g.entry.id}, [g.entry]
+  while todo:
+    n = todo.pop()
+    for m, lab in n.succs:
+      if done_edges.get(n.id) == lab or m.id in seen:
+        continue
+      seen.add(m.id)
+      todo.append(m)
+  polled = bool(done_edges) and not any(d.id in seen for d in decode)
+  ctx.check(polled, 'R3', 'get_suggestions: poll loop', fi.node,
+            'the response is decoded only after a test saw `operation.done` true (unbounded poll: termination rests on R1)',
+            'poll loop on operation.done not found: the response can be decoded before the operation is done',
+            construct='poll', func=fi.qualname)
   # (c) FAILED_PRECONDITION -> [] ; else re-raise
   handlers = [n for n in g.nodes if n.kind == 'handler']
   good = False
